@@ -1133,17 +1133,18 @@ fn views_case(seed: u64, idx: u64, thorough: bool, stats: &mut Counts) -> Result
                     .iter()
                     .filter(|w| (w.0, w.1) == key && w.2 == *later && w.3 < *c1 && w.4 > *c0)
                     .collect();
-                let explained = cands.iter().any(|w| {
+                let window = cands.iter().find_map(|w| {
                     let th = format!("writer{}", w.5);
-                    premature.iter().any(|x| x.0 == th && x.1 == w.6 && x.4 > *c0 && w.3 < *c1)
+                    premature.iter().find(|x| x.0 == th && x.1 == w.6 && x.4 > *c0 && w.3 < *c1)
                 });
-                if explained {
+                if let Some(win) = window {
                     stats.inc("viewstress.changed_views_explained_by_premature_publication");
                     if soft.is_none() {
                         soft = Some(Deviation::new(
                             "known:premature-publication-by-tree-version-change",
                             format!(
-                                "{text} [the value that appeared later (first {first:#x}) belongs to a write that was in flight while the view was created; the visible seqno was already 1 or more above its seqno before its publish: a tree version change raised it]"
+                                "{text} [the value that appeared later (first read: {first:#x}) belongs to a write with seqno {} that was in flight while the view was created; the visible seqno was already {} before its publish: a tree version change raised it]",
+                                win.2, win.5
                             ),
                         ));
                     }
